@@ -293,6 +293,23 @@ pub fn run(runner: &mut Runner, data_dir: &str, behaviours: Option<&str>, seed: 
         }
     }
     let ctx = sim::SimCtx::new(data_dir);
+    // (2d) one synthesised hit on a pad that has only half a calibration in the newest run segment (a baseline
+    //      but no gain, or the reverse), under run 11084: whatever the verdict and the amplitudes, they must be
+    //      the same in every process
+    {
+        let (partial, _) = crate::calib::uncalibrated_pads(data_dir, "r11084");
+        let mut ctx2 = sim::SimCtx::new(data_dir);
+        ctx2.maps = maps_for(11084);
+        let take = if thorough { partial.len() } else { 5 };
+        let step = (partial.len() / take.max(1)).max(1);
+        for (n, &(c, rw)) in partial.iter().enumerate().filter(|(n, _)| n % step == 0) {
+            let mut ev = sim::SimEvent { wires: Default::default(), pads: Default::default(), hits: vec![], vertex: (0.0, 0.0, 0.0) };
+            let h = sim::Hit { wire: (c * 8 + 8 + 3) & 0xff, tbin: 40 + (n % 50), z: sim::row_z(rw), amp: 180.0 };
+            sim::add_hit(&ctx2, &mut ev, &h, 1.1);
+            let banks = sim::to_banks(&ctx2, &ev, 100 + n as u32, 1.0, 0.0, &mut rng);
+            bag_case(runner, &mut rng, "half-calibrated-pad", format!("h{c}.{rw}"), 11084, banks, 4, 2);
+        }
+    }
     // (2c) a simulated event in which a second PWB message (chunk headers of another chip) claims the pads of
     //      an existing one with different, non-empty waveforms: whatever the verdict, it must be the same every time
     for ci in 0..(if thorough { 20 } else { 3 }) {
